@@ -20,6 +20,7 @@ class _M(DSOLModel):
         super().__init__(sim)
         self.nevents, self.faults, self.stoppers = nevents, faults, set(stoppers)
         self.executed = []
+        self.results = None
 
     def construct_model(self):
         for k in range(self.nevents):
@@ -30,6 +31,10 @@ class _M(DSOLModel):
         self.executed.append(k)
         if k in self.stoppers:
             self.simulator.stop()          # a command issued from a handler, i.e. on the run thread
+        if -k in self.stoppers:
+            self.simulator.cleanup()       # (what the WARN_AND_END strategy does when a handler fails)
+            if self.results is not None:
+                self.results.append(("cleanup@handler", "ok"))
         if k in self.faults:
             raise RuntimeError("fault")
 
@@ -79,6 +84,7 @@ class Scenario:
         self.model = _M(self.sim, nevents, set(faults), stoppers)
         self.notifs = []
         self.results = []
+        self.model.results = self.results
         captured, sim = [], self.sim
         orig = sim.schedule_event_abs
 
